@@ -165,20 +165,29 @@ def run(chk):
 
     def assigned(var):
         return [norm(n.value) for n in own_nodes(rc.node) if isinstance(n, ast.Assign) and norm(n.targets[0]) == var]
+    from . import pat
+    ins = ix.func('core.ElementList.insert')
+    ip = ins.call_params()
     for call in ins_calls:
-        ok = len(call.args) >= 3 and isinstance(call.args[0], ast.Name) and isinstance(call.args[2], ast.Name) and \
-            any(t == 'self.list.index(%s)' % old_p for t in assigned(call.args[0].id)) and \
-            any(t.startswith('self.indexes[') and t.endswith('.index(%s)' % old_p) for t in assigned(call.args[2].id)) and \
-            norm(call.args[1]) == new_p
+        bound = pat.call_args_by_param(call, ins.node)
+        a0, a1, a2 = (bound.get(p_) for p_ in ip[:3])
+        ok = isinstance(a0, ast.Name) and isinstance(a2, ast.Name) and a1 is not None and \
+            any(t == 'self.list.index(%s)' % old_p for t in assigned(a0.id)) and \
+            any(t.startswith('self.indexes[') and t.endswith('.index(%s)' % old_p) for t in assigned(a2.id)) and \
+            norm(a1) == new_p
         chk.ob('C10-O', 'replace_child keeps list order and by-name order in step', ok,
                '`%s`: the new child does not get the old child\'s position in both structures' % norm(call),
                '%s:%d' % (rc.module.relpath, call.lineno), key='C10-O|replace_child')
-    ins = ix.func('core.ElementList.insert')
-    ip = ins.call_params()
-    ok = any(isinstance(n, ast.Call) and norm(n.func).startswith('self.indexes[') and norm(n.func).endswith('.insert') and
-             n.args and norm(n.args[0]) == ip[2] for n in own_nodes(ins.node)) and \
-        any(isinstance(n, ast.Call) and norm(n.func) == 'self.list.insert' and n.args and norm(n.args[0]) == ip[0]
-            for n in own_nodes(ins.node))
+    # inside insert(): the positional insert into the by-name index uses by_name_index, the one into the list uses index
+    idx_ins = lst_ins = False
+    for w in fx.writes.get(ins.qualname, ()):
+        if w.how == 'mutate:insert' and isinstance(w.node, ast.Call) and w.node.args:
+            for f_ in tf.fields_of(fx, w.loc):
+                if f_ == (tf.EL, 'indexes') and norm(w.node.args[0]) == ip[2]:
+                    idx_ins = True
+                if f_ == (tf.EL, 'list') and norm(w.node.args[0]) == ip[0]:
+                    lst_ins = True
+    ok = idx_ins and lst_ins
     chk.ob('C10-O', 'insert() uses its list position for the list and its by-name position for the index', ok, '', ins.loc,
            key='C10-O|insert')
 
